@@ -53,7 +53,9 @@ static inline size_t varintBP128MaxBytes(size_t count) {
     size_t remainder = count % VARINT_BP128_BLOCK_SIZE;
     /* Each full block: 1 byte header + up to 128*8 bytes data */
     /* Partial block: 1 byte header + 1 byte count + up to remainder*8 bytes */
-    size_t bytes = fullBlocks * VARINT_BP128_MAX_BLOCK_BYTES;
+    /* 9 bytes: tagged varint written before the blocks (the element count of
+     * Encode64, the first value of DeltaEncode32/64) */
+    size_t bytes = 9 + fullBlocks * VARINT_BP128_MAX_BLOCK_BYTES;
     if (remainder > 0) {
         bytes += 2 + remainder * 8; /* header + count + data */
     }
